@@ -125,8 +125,16 @@ def SetGroups(addr, groups):
         for i in existing - groups:
             yield RemoveFromGroup(addr, i)
     else:
-        # Can't read from multiple devices: must write every group
-        for i in range(0, 16):
+        # Can't read from multiple devices: must write every group.
+        # When the gear is addressed through a group, that group has
+        # to be dealt with last: gear removed from it no longer
+        # receives the commands that follow.
+        order = list(range(0, 16))
+        own_group = getattr(addr, "group", None)
+        if own_group in order:
+            order.remove(own_group)
+            order.append(own_group)
+        for i in order:
             if i in groups:
                 yield AddToGroup(addr, i)
             else:
